@@ -3,7 +3,7 @@ import os
 import random
 import gen
 from common import proof_step, load_corpus, log
-from histcheck import chain_case, run_cases, shrink_case, step_summary
+from histcheck import chain_case, run_cases, shrink_case, step_summary, alias_search, alias_verdict
 
 PID = "C01"
 
@@ -22,7 +22,7 @@ def gen_case(rng):
         # next patch is written against the base again or against the previous patch
         if isinstance(p, dict) and rng.random() < 0.3:
             cur = p
-    return chain_case(layers)
+    return chain_case(layers, tail=("docs", "alias", "outdocs"))
 
 
 def nontrivial(case, go):
@@ -44,9 +44,11 @@ def evaluate(rep, cases, shrink_budget=120):
             rep.count("unmodelled_steps", unm)
         if d:
             bad.append((case, go, mo, d))
+    for c, g, m, d in alias_search(rep, results):
+        bad.append((dict(c, noshrink=True), g, m, d))
     for case, go, mo, d in bad[:5]:
         rep.disagreements_checked += 1
-        small = shrink_case(case, budget=shrink_budget)
+        small = case if case.get("noshrink") else shrink_case(case, budget=shrink_budget)
         r = run_cases([small])[0]
         rep.violation(f"merge result differs from the documented rules: {r[3] or d}",
                       {"case": small, "impl": r[1], "model": r[2], "original_case": case})
@@ -74,6 +76,7 @@ def run(rep):
         done += len(cs)
         nbad += evaluate(rep, cs)
     rep.extra["corpus_cases"] = ncorp
+    alias_verdict(rep)
     if rep.broken and not rep.violations:
         # a proof obligation broke but no failing input was found: extra targeted budget, then report
         extra = [gen_case(rng) for _ in range(6000)]
